@@ -31,7 +31,17 @@ use crate::{
 pub fn validate_jump_destination(counter: &RuntimeBoxedVal, vm: &mut VM) -> execution::Result<u32> {
     let instruction_pointer = vm.instruction_pointer()?;
     let jump_target = match counter.constant_fold().data() {
-        RSVD::KnownData { value, .. } => value.value_le().as_u32(),
+        RSVD::KnownData { value, .. } => {
+            // The target is a full 256-bit word; anything that does not fit the
+            // instruction pointer cannot be an offset in the code
+            match u32::try_from(value.value_le()) {
+                Ok(target) => target,
+                Err(_) => {
+                    return Err(execution::Error::NonExistentJumpTarget { offset: u32::MAX }
+                        .locate(instruction_pointer));
+                }
+            }
+        }
         _ => {
             return Err(execution::Error::NoConcreteJumpDestination.locate(instruction_pointer));
         }
